@@ -24,14 +24,14 @@ CLAIMS['C35'] = dict(engine='pyvc (E1) + rtc (E3)', category='proof',
          'as the reference sampler is proved to in C33. MCmoves (batch == Metropolis move by move), copy and parameter extraction are run-time relational contracts (B) on real numba objects.',
     note='Assumes numba runs the class body with Python semantics (decorator dropped), table invariants from the constructor (run-time checked), reals for energies.')
 
-CLAIMS['C18'] = dict(engine='rtc (E3)', category='exploration',
-    technique='run-time contract on Crystal construction (group axioms, isometry, atom/spin map) over an enumerated catalogue: bounded stand-in for the contract; GroupOp algebra proved under C23',
+CLAIMS['C18'] = dict(engine='rtc (E3) + pyframe ownership typing (E2b)', category='exploration',
+    technique='ownership contract of Crystal.__init__ / incell on the extracted AST (the crystal shares no array with its constructor arguments, nested lists deep-copied: for every caller history); run-time contract on Crystal construction (group axioms, isometry, atom/spin map) over an enumerated catalogue: bounded stand-in for the contract; GroupOp algebra proved under C23',
     text='Bounded: for every catalogue crystal (named lattices, low-symmetry, 2D, rotated settings, scalar/vector/complex spins, glide cells with several species, '
          'NOSYM, strained) each reported operation satisfies the isometry / lattice / atom-map / spin contract and the set is a group. Not a proof.',
     note='Tolerances fixed in the contract; the catalogue is the bound.')
 
-CLAIMS['C20'] = dict(engine='rtc (E3)', category='exploration',
-    technique='run-time contracts with character-formula oracle on site point groups, Wyckoff orbits and invariant bases; exhaustive subgroup enumeration of the holohedries through the real Combine*/eigen code path (bounded stand-in)',
+CLAIMS['C20'] = dict(engine='rtc (E3) + symx path enumeration (E4) + pyframe ownership typing (E2b)', category='exploration',
+    technique='contract of Crystal.vectlist discharged symbolically (extracted body run on a symbolic unit vector, every branch: the frame is orthonormal and orthogonal to the plane normal / equal to the line direction, modulo |n|=1); ownership contract of Crystal.VectorBasis (a new object on every call); run-time contracts with character-formula oracle on site point groups, Wyckoff orbits and invariant bases; exhaustive subgroup enumeration of the holohedries through the real Combine*/eigen code path (bounded stand-in)',
     text='Bounded: every site of every catalogue crystal and every subgroup of Oh, D6h (3D, two orientations) and D4, D6, D2 (2D, rotated) gets orthonormal, '
          'invariant vector and symmetric-tensor bases of exactly the dimension the character formula gives; Wyckoff sets equal brute-force orbits; adding a full orbit keeps |G|.',
     note='Character formulas trusted as definition; catalogue and listed orientations are the bound.')
@@ -52,8 +52,8 @@ CLAIMS['C22'] = dict(engine='rtc (E3)', category='exploration',
          'modulo the reciprocal lattice, reduced weights are positive, sum to one and reproduce the full-mesh average of invariant periodic functions to 1e-10.',
     note='Window of 9^d reciprocal vectors, six orbit shells of lattice vectors as test functions.')
 
-CLAIMS['C23'] = dict(engine='symx (E4) + rtc (E3)', category='proof',
-    technique='contract-based: route-consistency identities as postconditions over ghost predicates crystal_ok/op_ok, discharged by executing the real module source on symbolic lattices/positions/operations (sympy normal forms, ideal membership), dimension 2 and 3',
+CLAIMS['C23'] = dict(engine='symx (E4) + pyframe ownership typing (E2b) + rtc (E3)', category='proof',
+    technique='contract-based: ownership contract of Crystal.__init__ (the stored lattice / basis are private copies); route-consistency identities as postconditions over ghost predicates crystal_ok/op_ok, discharged by executing the real module source on symbolic lattices/positions/operations (sympy normal forms, ideal membership), dimension 2 and 3',
     text='For all lattices, integer lattice vectors, in-cell positions and operations satisfying op_ok, in 2D and 3D: the coordinate conversions round-trip, '
          'g_pos/g_vect/g_cart/g_direc/g_tensor, PairState.g and ClusterSite.g give the same geometric result, products/inverses/lattice shifts of operations act '
          'as composition/inverse/shift, fromcrys and fromcrys_latt are mutually inverse. cart2pos and floating-point robustness are checked numerically on the catalogue (B).',
@@ -69,8 +69,8 @@ CLAIMS['C24'] = dict(engine='rtc (E3) + pyframe ownership typing (E2b)', categor
     text='Bounded: on every catalogue crystal, ranges 1..2 (3 where small), with and without origin states: states equal the BFS-reachable non-zero states, stars are complete orbits, '
          'index lookups agree, s1+s2 equals generate(N1+N2) and leaves its operands unchanged, difference sets contain exactly the endpoint differences.',
     note='Catalogue and ranges are the bound.')
-CLAIMS['C25'] = dict(engine='rtc (E3)', category='exploration',
-    technique='run-time postconditions of VectorStarSet.generate/generateouter/GFexpansion with character-formula oracle and direct assembly (bounded stand-in)',
+CLAIMS['C25'] = dict(engine='rtc (E3) + symx path enumeration (E4) + pyframe ownership typing (E2b)', category='exploration',
+    technique='contract of Crystal.vectlist (frames of the origin-state vector stars) discharged symbolically for every unit vector and branch; ownership contract of Crystal.VectorBasis (what FullVectorBasis normalises in place is never stored state); run-time postconditions of VectorStarSet.generate/generateouter/GFexpansion with character-formula oracle and direct assembly (bounded stand-in)',
     text='Bounded: Gram matrix = 1, every vector star is an equivariant field on one complete star, their number equals the total invariant dimension of the stabilisers, '
          'outer products are direct sums, the GF expansion equals the projected directly assembled matrix.',
     note='rate/bias/bare expansions are only exercised end-to-end (C06); catalogue, N <= 2.')
@@ -111,7 +111,7 @@ CLAIMS['C06'] = dict(engine='pyvc (E1) + pyframe degree typing (E2) + rtc (E3)',
     text='Bounded: Lsv = -L0vv, L1vv = 0, 0 <= Lss <= L0vv for seeded non-uniform vacancy data on the catalogue calculators (1e-9 algebraic / 1e-4 with origin states).',
     note='Nthermo 1 (quick).')
 CLAIMS['C08'] = dict(engine='pyframe degree typing (E2) + rtc (E3)', category='exploration',
-    technique='degree contract of VacancyMediated.Lij checked on the extracted AST (the test that selects the omega2 algorithm and every cutoff compare quantities of equal rate degree: the selection depends on rate ratios only, for all inputs); run-time postconditions of Lij over a grid of omega2 scales with both forced algorithms as bounded stand-in with known findings',
+    technique='contract of Crystal.vectlist (origin-state frames) discharged symbolically for every unit vector; degree contract of VacancyMediated.Lij checked on the extracted AST (the test that selects the omega2 algorithm and every cutoff compare quantities of equal rate degree: the selection depends on rate ratios only, for all inputs); run-time postconditions of Lij over a grid of omega2 scales with both forced algorithms as bounded stand-in with known findings',
     text='Bounded: finiteness/symmetry of the default selection, agreement of the two algorithms for scales <= 1e6, smooth approach to the large-rate limit (1e-3). Known findings: drift at 1e15/1e16, blow-up and disagreement on crystals with origin states, disagreement on low-symmetry crystals.',
     note='Scale grid and catalogue are the bound; constants fixed in DESIGN.md.')
 CLAIMS['C11'] = dict(engine='symx-lf (E4b) + rtc (E3)', category='exploration',
